@@ -313,9 +313,13 @@ func init() {
 		"TempDir": func(ex *Exec, fn *ssa.Function, args []Value, caller *Frame) Value {
 			fs := ex.fs()
 			fs.tmpN++
-			d := ex.strLit(fmt.Sprintf("/data%d", fs.tmpN))
-			fs.dirs = append(fs.dirs, d)
-			return d
+			// nested, so that lexical path traversal by a short key stays
+			// inside the run's own directory (natively: inside the temp dir)
+			base := fmt.Sprintf("/data%d", fs.tmpN)
+			for _, p := range []string{"/", base, base + "/a", base + "/a/b", base + "/a/b/c"} {
+				fs.dirs = append(fs.dirs, ex.strLit(p))
+			}
+			return ex.strLit(base + "/a/b/c")
 		},
 		"CrashWindow": func(ex *Exec, fn *ssa.Function, args []Value, caller *Frame) Value {
 			// the process may die before any file-system step inside f, or
